@@ -21,7 +21,6 @@ import (
 	"pgregory.net/rapid"
 
 	"verif/internal/ev"
-	"verif/internal/hx"
 	"verif/internal/kf"
 	"verif/internal/run"
 )
@@ -80,7 +79,34 @@ func renderVuegoLoad(src []byte) (string, error) {
 
 // ---- kind "doc" ----------------------------------------------------------------------------
 
-type stats struct{ tolerated map[string]int }
+type stats struct {
+	tolerated map[string]int
+	skipped   int
+}
+
+// skip reports whether a generated (non-strict) document touches the region of an open finding
+// although the generator avoids those regions by construction (Markdown lets text leak out of a
+// construct, e.g. an indented code line after a list item is a paragraph of that item). Such a
+// document is not compared; it is counted as excluded under the finding.
+func (s *stats) skip(c Case, fa facts) bool {
+	if c.Strict {
+		return false
+	}
+	var ids []string
+	for id := range fa.regions {
+		if isOpen(id) {
+			ids = append(ids, id)
+		}
+	}
+	if len(ids) == 0 {
+		return false
+	}
+	if s != nil {
+		s.add(ids)
+		s.skipped++
+	}
+	return true
+}
 
 func (s *stats) add(ids []string) {
 	if s == nil {
@@ -104,6 +130,9 @@ func checkDoc(c Case, st *stats) error {
 	got, err := renderVuego(src, nil)
 	if err != nil {
 		return fmt.Errorf("rendering failed: RenderBytes returned %v%s", err, describe(c.Src, ref, got))
+	}
+	if st.skip(c, analyse(src)) {
+		return nil
 	}
 	t := tolerances(c)
 	d, tolerated := compare(ref, got, t)
@@ -181,26 +210,17 @@ func checkOverride(c Case, st *stats) error {
 	if err != nil {
 		return fmt.Errorf("rendering with overridden %v failed: %v%s", c.Override, err, describe(c.Src, ref, got))
 	}
-	rn, err := hx.ParseFragment(ref)
-	if err != nil {
+	fa := analyse(src)
+	if st.skip(c, fa) {
 		return nil
 	}
-	gn, err := hx.ParseFragment(got)
-	if err != nil {
-		return fmt.Errorf("vuego output does not parse: %v", err)
-	}
-	fa := analyse(src)
-	attributable := true
-	d, tolerated := compareNodes(rn, gn, tolerances(c), func(tree []*hx.N) {
-		if !mark(tree, set, fa.aKinds) {
-			attributable = false
-		}
-	})
+	want, attributable := markRef(ref, set, fa.aKinds)
 	if !attributable {
-		return nil // raw <a> without data-raw in a hand-written case: expected marking unknown
+		return nil // raw <a href=..> without data-raw in a hand-written case: expected marking unknown
 	}
+	d, tolerated := compare(want, got, tolerances(c))
 	if d != "" {
-		return fmt.Errorf("override %v: expected = reference with data-ov on exactly the elements of the overridden templates; %s%s", c.Override, d, describe(c.Src, ref, got))
+		return fmt.Errorf("override %v: expected = reference with data-ov on exactly the elements of the overridden templates; %s%s", c.Override, d, describe(c.Src, want, got))
 	}
 	st.add(tolerated)
 	return nil
@@ -273,9 +293,17 @@ func classifyDoc(c Case) (bool, []string) {
 		cls = append(cls, k)
 	}
 	sort.Strings(cls)
+	switch n := strings.Count(c.Src, "\n") + 1; {
+	case n <= 5:
+		cls = append(cls, "lines:1-5")
+	case n <= 15:
+		cls = append(cls, "lines:6-15")
+	default:
+		cls = append(cls, "lines:16-41")
+	}
 	nt := false
 	for _, k := range cls {
-		if k != "paragraph" && k != "soft-break" {
+		if k != "paragraph" && k != "soft-break" && !strings.HasPrefix(k, "lines:") {
 			nt = true
 		}
 	}
@@ -433,6 +461,7 @@ func TestProp(t *testing.T) {
 				rec.Excluded(id)
 			}
 		}
+		rec.Count("generated-but-in-open-region(skipped)", st.skipped)
 	}()
 	shard, shards := run.Shard()
 
